@@ -125,7 +125,7 @@ func properties() map[string]*PropertyDef {
 			"netutil.ValidateTLDLabel", "netutil.ValidateServiceNameLabel",
 			"netutil.ValidateDomainName", "netutil.ValidateHostname", "netutil.ValidateSRVDomainName",
 		},
-		Lemmas: []string{"nextDotIs", "nextDotNone", "hostImpliesSrv", "srvImpliesDom", "nameInclusions"},
+		Lemmas: []string{"nextDotIs", "nextDotNone", "hostFromStep", "hostFromEnd", "domFromStep", "domFromEnd", "srvFromStep", "srvFromEnd", "hostImpliesSrv", "srvImpliesDom", "nameInclusions"},
 		Kinds:  map[string]bool{"ensures": true, "invariant": true, "lemma": true, "requires": true, "typeassert": true, "panic": true},
 		NeedsClauses: map[string][]string{
 			"netutil.ValidateHostname":      {"grammar", "error_carries_input", "safe_type"},
@@ -325,6 +325,30 @@ func properties() map[string]*PropertyDef {
 		LevelText:   "proof (partial): shutdown order/completeness/status and panic edge for all service lists and signal sequences; call protocol of the refresh loop; timing and interleavings not decided",
 		LevelNote:   "see assumptions; trusted: go/ssa lowering, govc encoding, solvers",
 		Technique:   "contract-based deductive verification (govc): ghost event log, loop invariants, exceptional postcondition, WP over go/ssa, z3/cvc5",
+	})
+	ps = append(ps, &PropertyDef{
+		ID:       "C02",
+		Patterns: []string{"./netutil"},
+		Funcs: []string{"netutil.IsValidHostOuterRune", "netutil.IsValidHostInnerRune", "netutil.IsValidHostnameLabel", "netutil.ValidateHostnameLabel",
+			"netutil.hasValidTLDChars", "netutil.isValidTLDLabel", "netutil.ValidateTLDLabel", "netutil.IsValidHostname", "netutil.ValidateHostname",
+			"netutil.isIPv4Label", "netutil.isUint16"},
+		Lemmas: []string{"nextDotIs", "nextDotNone", "hostFromStep", "hostFromEnd", "twinHostnameLabel", "twinHostname", "decValZero", "decValStep", "decValNonNeg", "decValMono"},
+		Kinds:  map[string]bool{"ensures": true, "invariant": true, "lemma": true, "requires": true},
+		NeedsClauses: map[string][]string{
+			"netutil.IsValidHostnameLabel": {"grammar"}, "netutil.ValidateHostnameLabel": {"grammar"},
+			"netutil.IsValidHostname": {"grammar"}, "netutil.ValidateHostname": {"grammar"},
+			"netutil.isIPv4Label": {"grammar"}, "netutil.isUint16": {"grammar"},
+		},
+		Bounded: c02Bounded,
+		Assumptions: []string{
+			"PARTIAL CLAIM. Proved (for all strings): IsValidHostnameLabel(s) and ValidateHostnameLabel(s) == nil are both equivalent to the same label grammar, and IsValidHostname(s) and ValidateHostname(s) == nil to the same name grammar (labels are maximal dot-free segments, IDNA conversion as an assumed deterministic function), hence each validator agrees with its reference; two building blocks of the IP validators against their definitions: isIPv4Label accepts exactly the canonical decimal octets, isUint16 exactly the digit strings of value at most 65535",
+			"BOUNDED, not proved: IsValidIPString vs netip.ParseAddr and IsValidIPPortString vs netip.ParseAddrPort are compared on the real code over a finite enumeration (see coverage.bounded_parts); the IPv6 text grammar of net/netip was not brought under contract (a recursive grammar over positions, field counts and the ellipsis that the solvers do not handle unprompted)",
+			"assumed: idna.ToASCII is deterministic",
+		},
+		Explanation: "both members of each hostname pair carry the postcondition 'result <==> grammar(s)' for the same spec predicate; the IP halves are a bounded differential check against the real parsers",
+		LevelText:   "proof for the two hostname equivalences (all strings); bounded differential check for the two IP equivalences",
+		LevelNote:   "the bounded part is labelled bounded in the evidence and is not counted among the discharged obligations",
+		Technique:   "contract-based deductive verification (govc) for the hostname pairs; bounded exhaustive differential test on the real code for the IP pairs (stand-in)",
 	})
 	out := map[string]*PropertyDef{}
 	for _, p := range ps {
